@@ -273,6 +273,9 @@ impl Oracle {
             if t >= 8 {
                 ctx.stats.probe("polynomials_checked_t_ge_8");
             }
+            if t > 256 {
+                ctx.stats.probe("polynomials_checked_t_over_256");
+            }
         }
         Ok(())
     }
@@ -328,7 +331,28 @@ impl Property for C02 {
         gen.relatives = true;
         gen.count_offsets = vec![-1, -1, -2, 0, 1, 1, 2, 3];
         gen.aux_kinds = vec![-1, 0, 4, 100, 300];
-        let net = NetCfg { drop: 200, dup: 150, replay: 50, misdeliver: 0, corrupt: 0, min_latency_us: 1_000, jitter_us: 600_000, long_delay: 50, long_delay_us: 3_000_000 };
+        // every 40th run: one group with a threshold that does not fit one byte and t+1..t+2 clients,
+        // so that the polynomial clause is decided above 256 as well
+        let big = ctx.ch.chance(1, 40);
+        if big {
+            gen.thresholds = vec![257, 300];
+            gen.max_groups = 1;
+            gen.relatives = false;
+            gen.max_clients_total = 310;
+            gen.count_offsets = vec![1, 2];
+            gen.sources = vec![0, 1];
+            gen.meas_lens = vec![11];
+            gen.aux_kinds = vec![-1, 4];
+            ctx.stats.probe("runs_with_threshold_over_256");
+        }
+        let mut net = NetCfg { drop: 200, dup: 150, replay: 50, misdeliver: 0, corrupt: 0, min_latency_us: 1_000, jitter_us: 600_000, long_delay: 50, long_delay_us: 3_000_000 };
+        if big {
+            // no loss here: a 250-share sub-threshold bucket would make every forged-threshold attack
+            // an O(t^2) interpolation; this mode is about the polynomial clause
+            net.drop = 0;
+            net.dup = 0;
+            net.replay = 0;
+        }
         let mut w = WorldA::build(ctx, gen, net, true);
         let mut o = Oracle::default();
         w.run(ctx, &mut o)
